@@ -67,12 +67,23 @@ class Injector(object):
         self.ctl = ctl or {}
         self.n = 0
 
+    def mid(self, run):
+        """status request (or None) landing between a poll's answer and the provider's acknowledgements"""
+        c = self.ctl
+        if c.get("mid_req") and self.rng.random() < c["mid_req"] and self.n < c.get("max_req", 4):
+            self.n += 1
+            return self.rng.choice(c.get("reqs") or ["pausing", "paused", "canceling"])
+        return None
+
     def __call__(self, run, phase):
         c = self.ctl
         r = self.rng
         st = run.status()
         if phase == "after_done" and c.get("early_render") and st in provider.COMPLETED and r.random() < c["early_render"]:
             run.render()
+        if phase == "after_poll" and c.get("mid_req") and st == "paused" and run.inflight and r.random() < 0.5:
+            # resume right after a pause that raced with the provider starting its offers
+            run.request(r.choice(["resuming", "running"]))
         if phase in ("before_poll", "after_done"):
             if c.get("crash") and r.random() < c["crash"]:
                 run.crash()
@@ -112,6 +123,8 @@ def conduct(job):
             run = explore.make_run(case, ms, model=m, ack_chain=(ack if ack == "lazy" else bool(ack) and sched % 2 == 1))
             hook = Injector(h64(job.get("gseed", 0), seed, sched, "inj"), job.get("ctl")) if job.get("ctl") else None
             pol = explore.Policy(pseed=h64(job.get("gseed", 0), seed, sched, "p"), lazy_pct=lazy)
+            if hook is not None and (job.get("ctl") or {}).get("mid_req"):
+                run.mid_poll_hook = hook.mid
             explore.run_free(run, pol, hook=hook)
             if (job.get("ctl") or {}).get("rerun") and run.status() == "failed" and not run.inflight \
                     and h64(seed, sched, "rr") % 100 < 100 * job["ctl"]["rerun"]:
